@@ -426,7 +426,14 @@ def cv_case(draw):
         order = draw(gen.permutation(n))
         cat = [names[members[i]] for i in order]
         k_pattern = draw(st.sampled_from([1, 2]))
+    # ... or over a descriptor with one distinct label per condition, held as an array in an order
+    # that is not sorted (stimulus names / ids as they come from the experiment)
+    uniq = None
+    if cat is None and draw(st.integers(0, 2)) == 0:
+        _, labs = draw(gen.label_set(n))
+        uniq = labs
     return dict(n=n, rows=rows, kind=kind, groups=groups, k_rdm=k_rdm, k_pattern=k_pattern, cat=cat,
+                uniq=uniq,
                 random=draw(st.booleans()), seed=draw(st.integers(0, 2 ** 31 - 1)),
                 method=draw(st.sampled_from(CV_METHODS)))
 
@@ -437,9 +444,12 @@ def check_cv(case):
     a = np.array(case['rows'], dtype=float)
     k = len(a)
     cat = case.get('cat')
-    pdesc = 'index' if cat is None else 'cat'
+    uniq = case.get('uniq')
+    pdesc = 'cat' if cat is not None else 'stim' if uniq is not None else 'index'
+    pdescs = {'cat': list(cat)} if cat is not None else \
+        {'stim': np.array(uniq)} if uniq is not None else None
     rd = RDMs(a.copy(), rdm_descriptors={'grp': list(case['groups']), 'rid': list(range(k))},
-              pattern_descriptors=None if cat is None else {'cat': list(cat)})
+              pattern_descriptors=pdescs)
     np.random.seed(case['seed'])
     train_set, test_set, ceil_set = lib(sets_k_fold, rd, k_rdm=case['k_rdm'],
                                         k_pattern=case['k_pattern'], random=case['random'],
@@ -450,7 +460,11 @@ def check_cv(case):
     for ceil, test in zip(ceil_set, test_set):
         tr_ids = [int(i) for i in ceil[0].rdm_descriptors['rid']]
         te_ids = [int(i) for i in test[0].rdm_descriptors['rid']]
-        if cat is None:
+        if uniq is not None:
+            named = [core.tolist(x) for x in test[1]]
+            cond = [i for i in range(n) if uniq[i] in named]
+            require(len(cond) == len(named), 'fold names %r, labels are %r' % (named, uniq), 'harness')
+        elif cat is None:
             cond = [int(c) for c in test[1]]
         else:   # the fold names group labels: its conditions are all members, in storage order
             named = list(test[1])
@@ -490,7 +504,8 @@ def classify_cv(case):
     labels = ['method:' + case['method'], 'k_rdm=%d' % case['k_rdm'],
               'k_pattern=%d' % case['k_pattern'], 'random' if case['random'] else 'ordered',
               'groups:' + ('singleton' if singleton else 'grouped'), 'values:' + case['kind'],
-              'folds-over:' + ('index' if case.get('cat') is None else 'interleaved-category')]
+              'folds-over:' + ('interleaved-category' if case.get('cat') is not None else
+                               'unique-label-array' if case.get('uniq') is not None else 'index')]
     return labels, k >= 3 or not singleton or case['kind'] == 'smallpos'
 
 
